@@ -180,7 +180,9 @@ func checkC08(r *Run) {
 		methods = append(methods, m[1:], m+m[len(m)-1:], m[:1]+m)
 	}
 	methods = append(methods, "OTHER", "invite", "Invite", "INVITe", "FOO", "X", "INVITE2", "IN", "SIP", "SIP/2.00", "a-b.c!%*_+`'~", "\x80\xff")
-	uris := []string{"sip:a@b", "x", "*", "sip:a;b?c=d", "sips:[::1]:5061;transport=tls", "SIP/2.0"}
+	uris := []string{"sip:a@b", "x", "*", "sip:a;b?c=d", "sips:[::1]:5061;transport=tls", "SIP/2.0",
+		// tokens wrapped in, or made of, characters that delimit things elsewhere in SIP: reported exactly as written
+		"<sip:a@b>", "<>", "<sip:a@b", "sip:a@b>", "\"sip:a@b\"", "(sip:a)", "[::1]", "a,b", "a=b;c", "%41:%", "'x'", "{x}", ":", "@"}
 	vers := []string{"SIP/2.0", "SIP/3.0", "x", "sip/2.0"}
 	terms := []string{"\r\n", "\n", "\r"}
 	var cases []flCase
